@@ -598,13 +598,15 @@ class C19(CrossCfg):
     listed = set()
 
     def counts(self, op, v):
-        return v.get("V") in ("0", "1") or v.get("T") in ("0", "1")
+        return v.get("V") in ("0", "1") or v.get("T") in ("0", "1") or v.get("H") in ("0", "1")
 
     def judge(self, op, v, mode):
         if v.get("V") == "0":
             return ("violation", "key metadata rule broken (version not increased / mtime not refreshed / went backwards)")
         if v.get("T") == "0" and not (set(v["K"]) & ALL_API_FINDINGS):
             return ("violation", "the type or expiry reported by the key lookup is not what the operation established")
+        if v.get("H") == "0":
+            return ("violation", "the destination of a successful store does not start a new history (version 1, modification time of the call)")
         if v.get("M") == "0" and (set(v["D"]) & {"version", "mtime"}) and v.get("V") != "0":
             return ("corr", "model and implementation disagree on version/mtime (D=" + ",".join(v["D"]) + ")")
         return None
@@ -944,7 +946,7 @@ class WireCfg(Cfg):
         return [dict(kind="sock", driver="wiredriver", args=["-seed", seed * 1000 + 950 + i, "-requests", r]) for i in range(n)]
 
     lean = ["Model.Wire.Server", "Model.Wire.Witness", "WireProto"]
-    tie = ["Grammar", "Dispatch", "Server"]
+    tie = ["Grammar", "Dispatch", "Server", "Cmds"]
     facts = [r"^dispatch", r"^server\.", r"^grammar"]
     wire_streams = []
 
@@ -966,8 +968,8 @@ class WireCfg(Cfg):
 
 
 class C13(WireCfg):
-    lean = WireCfg.lean + ["Props.C13", "Audit.C13"]
-    audit = ["C13"]
+    lean = WireCfg.lean + ["Props.C13", "Audit.C13", "Props.C13api", "Audit.C13api"]
+    audit = ["C13", "C13api"]
     wire_streams = [("valid", 10, 60, 100), ("malformed", 3, 60, 100), ("pool", 3, 20, 200)]
     listed = {"D13", "D20"}
     rule = ("requests generated from each command's grammar (all option subsets and orders, keyword case variants, boundary and malformed "
